@@ -165,8 +165,11 @@ def run_exec(pid, tier, seed, emphasis, scns=("exec",), pre=None):
                 if scn == "replace" and (cfg or nes):
                     continue
                 for off in range(0, n * (6 if scn in ("ryt", "replace") else 1), per):
+                    opts = ("nes=%d" % nes, "cfg=%d" % cfg)
+                    if scn == "migrate" and nes == 2 and (off // per) % 2:
+                        opts += ("dead=1",)   # a joined, not yet freed stream with a low rank is in the stream list
                     jobs.append(dict(exe=exe, scn=scn, seed0=seed * 1000000 + emphasis * 100000 + 1 + off,
-                                     count=per, opts=("nes=%d" % nes, "cfg=%d" % cfg),
+                                     count=per, opts=opts,
                                      env={"ABTV_BUDGET": "400000"}))
         if not quick:
             for cfg in range(6):
